@@ -250,13 +250,27 @@ impl Walrus {
                     }
                 }
             } else {
-                // No persisted tail; init at current active block start
-                persisted_tail = Some((active_block.id, 0));
+                // No persisted tail in this call; start from the in-memory tail progress if
+                // it refers to the active block (otherwise from the block start), so that
+                // an empty poll never moves the durable cursor backwards.
+                let init_off = if tail_snapshot.0 == active_block.id {
+                    tail_snapshot.1
+                } else {
+                    0
+                };
+                persisted_tail = Some((active_block.id, init_off));
+                // AtLeastOnce deliberately persists less often than it reads, so there the
+                // in-memory progress is not written here (only never overwritten with 0).
+                let write_init = init_off == 0
+                    || matches!(self.read_consistency, ReadConsistency::StrictlyAtOnce);
                 if checkpoint {
-                    if self.should_persist(&mut info, true) {
+                    if self.should_persist(&mut info, true) && write_init {
                         if let Ok(mut idx_guard) = self.read_offset_index.write() {
-                            let _ =
-                                idx_guard.set(col_name.to_string(), active_block.id | TAIL_FLAG, 0);
+                            let _ = idx_guard.set(
+                                col_name.to_string(),
+                                active_block.id | TAIL_FLAG,
+                                init_off,
+                            );
                         }
                     }
                 }
